@@ -5,7 +5,7 @@ from __future__ import annotations
 import numpy as np
 
 from vlib.coherence import arr_equal_bits
-from vlib.common import CaseResult, exc_mech, rng_for, struct_hash
+from vlib.common import CaseResult, exc_mech, off, rng_for, struct_hash
 from vlib.gengraph import Program, gen_program, sane
 
 ID = "C03"
@@ -22,7 +22,7 @@ RULE = (
 )
 REQUIRED = ["edge_inputs_equal_direct_assignment", "interface_construction_leaves_user_model", "put_get_law_with_colliding_names", "realistic_log_prob_vs_oracle", "result_equals_spec_evaluation", "result_equals_direct_assignment", "history_independent",
             "input_state_unchanged", "user_model_unchanged", "extract_returns_position",
-            "log_prob_equals_model", "jit_equals_eager", "vmap_equals_eager", "simple_interface_laws"]
+            "log_prob_equals_model", "jit_equals_eager", "vmap_equals_eager", "simple_interface_laws", "numpy_valued_model_eager"]
 ANCHORS = ["goose/interface.py:LieselInterface.update_state", "goose/interface.py:LieselInterface.extract_position",
            "model/model.py:Model._copy_computational_model", "goose/interface.py:DataclassInterface.update_state",
            "goose/interface.py:DictInterface.update_state", "goose/interface.py:NamedTupleInterface.update_state"]
@@ -317,7 +317,23 @@ def _state_classes():
             y: jnp.ndarray
             z: jnp.ndarray
 
-        _CLS = (DState, NState)
+        from dataclasses import field
+        from typing import Any
+
+        @dataclass
+        class PState:
+            """A state class with a derived field that is not an __init__ argument and a normalising __post_init__
+            (both legal for DataclassInterface, which copies the instance and assigns attributes)."""
+            x: Any
+            y: Any
+            z: Any
+            w: Any = field(init=False)
+
+            def __post_init__(self):
+                self.w = self.x * 2.0
+                self.z = self.z * 0.5
+
+        _CLS = (DState, NState, PState)
     return _CLS
 
 
@@ -351,7 +367,7 @@ def case_collision(case, res):
         # the derived node is consistent with whatever was set
         tv = float(out["tau_value"].value)
         bv = float(out["tau_value_value"].value)
-        if abs(float(out["c"].value) - (tv + 2 * bv)) > 1e-5:
+        if off(float(out["c"].value), tv + 2 * bv, 1e-5):
             res.violation("wrong-state", "derived node inconsistent after update with a colliding key", {"key": key})
         S = out
     res.nontriv(("collision", case["idx"]))
@@ -434,7 +450,7 @@ def case_simple(case, res):
 
     rng = rng_for(case["seed"], "c03-simple", case["idx"])
 
-    DState, NState = _state_classes()
+    DState, NState, PState = _state_classes()
 
     def lp_dict(s):
         return -jnp.sum(s["x"] ** 2) - jnp.sum((s["y"] - s["z"]) ** 2)
@@ -442,11 +458,18 @@ def case_simple(case, res):
     def lp_attr(s):
         return -jnp.sum(s.x ** 2) - jnp.sum((s.y - s.z) ** 2)
 
+    def lp_post(s):
+        return -jnp.sum(s.x ** 2) - jnp.sum((s.y - s.z) ** 2) - 0.1 * jnp.sum(s.w ** 2)
+
     def mk(kind, vals):
         if kind == "dict":
             return dict(vals)
         if kind == "dataclass":
             return DState(**vals)
+        if kind == "dataclass_post":
+            st = PState(**{k: v for k, v in vals.items() if k != "w"})
+            st.w = vals["w"]
+            return st
         return NState(**vals)
 
     def get(kind, s, k):
@@ -454,14 +477,17 @@ def case_simple(case, res):
 
     kind = case["iface"]
     iface = {"dict": gs.DictInterface(lp_dict), "dataclass": gs.DataclassInterface(lp_attr),
-             "namedtuple": gs.NamedTupleInterface(lp_attr)}[kind]
+             "dataclass_post": gs.DataclassInterface(lp_post), "namedtuple": gs.NamedTupleInterface(lp_attr)}[kind]
     shapes = {"x": (), "y": (3,), "z": (3,)}
+    if kind == "dataclass_post":
+        shapes["w"] = ()
+    names = list(shapes)
     vals = {k: jnp.asarray(rng.integers(-3, 4, size=shapes[k]).astype(np.float32)) for k in shapes}
     S = mk(kind, vals)
     states = [S]
     cache = {}
     for step in range(case["n_calls"]):
-        ks = [str(k) for k in rng.choice(["x", "y", "z"], size=int(rng.integers(1, 4)), replace=False)]
+        ks = [str(k) for k in rng.choice(names, size=int(rng.integers(1, 4)), replace=False)]
         pos = {k: jnp.asarray(rng.integers(-3, 4, size=shapes[k]).astype(np.float32)) for k in ks}
         si = int(rng.integers(len(states)))
         s = states[si]
@@ -482,7 +508,7 @@ def case_simple(case, res):
             if not arr_equal_bits(np.asarray(get(kind, out, k)), np.asarray(exp)):
                 res.violation("simple-put", f"{kind}: field {k} of the updated state is wrong", {"kind": kind, "keys": ks})
         d = {k: np.asarray(get(kind, out, k), np.float64) for k in shapes}
-        exp_lp = -np.sum(d["x"] ** 2) - np.sum((d["y"] - d["z"]) ** 2)
+        exp_lp = -np.sum(d["x"] ** 2) - np.sum((d["y"] - d["z"]) ** 2) - (0.1 * np.sum(d["w"] ** 2) if "w" in d else 0.0)
         if not np.allclose(float(iface.log_prob(out)), exp_lp, rtol=1e-6, atol=1e-5):
             res.violation("simple-log-prob", f"{kind}: log_prob(updated state) wrong", {"kind": kind})
         ck = (struct_hash({k: np.asarray(v).tolist() for k, v in pos.items()}), si)
@@ -491,7 +517,7 @@ def case_simple(case, res):
             res.violation("simple-history-dependent", f"{kind}: same (p,S) gave different results", {"kind": kind})
         cache[ck] = flat
         # jit
-        if step % 5 == 0:
+        if step % 5 == 0 and kind != "dataclass_post":
             oj = jax.jit(iface.update_state)(pos, s)
             if any(not np.array_equal(np.asarray(get(kind, oj, k)), np.asarray(get(kind, out, k))) for k in shapes):
                 res.violation("simple-jit", f"{kind}: jit(update_state) differs from eager", {"kind": kind})
@@ -499,6 +525,81 @@ def case_simple(case, res):
         _ = copy, s_copy_id
     res.nontriv(("simple", kind, case["idx"]))
     res.sample = {"interface": kind, "calls": case["n_calls"]}
+
+
+def case_numpy(case, res):
+    """A model whose values are NumPy arrays (design matrices, data), positions handed over as NumPy arrays of the same
+    shape and dtype, eager calls: the input state and the user's model stay bit-for-bit what they were, the same (p, S)
+    gives the same result, and the result is the direct assignment."""
+    import liesel.goose as gs
+    import liesel.model as lsl
+    import tensorflow_probability.substrates.jax.distributions as tfd
+
+    rng = rng_for(case["seed"], "c03-numpy", case["idx"])
+
+    def build():
+        X = lsl.Var(np.asarray(rng0.normal(size=(4, 2)), np.float32), name="X")
+        b_ = lsl.Var(np.asarray([0.5, -1.0], np.float32), lsl.Dist(tfd.Normal, loc=0.0, scale=3.0), name="b")
+        b_.parameter = True
+        mu = lsl.Var(lsl.Calc(lambda X_, b__: X_ @ b__, X, b_), name="mu")
+        y = lsl.obs(np.asarray(rng0.normal(size=4), np.float32), lsl.Dist(tfd.Normal, loc=mu, scale=1.0), name="y")
+        return lsl.GraphBuilder().add(y).build_model()
+
+    rng0 = np.random.default_rng(case["idx"])
+    A = build()
+    rng0 = np.random.default_rng(case["idx"])
+    B = build()
+    B.auto_update = False
+    iface = gs.LieselInterface(A)
+    S = A.state
+    user_before = state_bytes(S)
+    states = [S]
+    shapes = {"X": (4, 2), "b": (2,), "y": (4,)}
+    for step in range(case["n_calls"]):
+        ks = [str(k) for k in rng.choice(list(shapes), size=int(rng.integers(1, 3)), replace=False)]
+        pos = {k: np.asarray(rng.normal(size=shapes[k]), np.float32) for k in ks}
+        s = states[int(rng.integers(len(states)))]
+        before = state_bytes(s)
+        pos_before = {k: v.tobytes() for k, v in pos.items()}
+        out1 = iface.update_state(pos, s)
+        snap1 = state_bytes(out1)
+        res.mon("numpy_valued_model_eager")
+        w = {"keys": ks, "step": step, "model": "NumPy-valued Liesel model, NumPy positions, eager"}
+        if state_bytes(s) != before:
+            res.violation("input-state-mutated", "eager update_state with NumPy values changed its input state", w)
+            break
+        if state_bytes(A.state) != user_before:
+            res.violation("user-model-mutated", "eager update_state with NumPy values changed the user's model", w)
+            break
+        out2 = iface.update_state(pos, s)
+        if state_bytes(out2) != snap1 or state_bytes(out1) != snap1:
+            res.violation("history-dependent", "the same (position, state) gave two different results, or the first result "
+                          "changed when update_state was called again", w)
+            break
+        if {k: v.tobytes() for k, v in pos.items()} != pos_before:
+            res.violation("input-state-mutated", "update_state changed the position it was given", w)
+            break
+        # direct assignment twin
+        B.state = s
+        for n_ in B.nodes.values():
+            n_._outdated = False
+        for k, v in pos.items():
+            B.vars[k].value = v
+        B.update()
+        exp = B.state
+        for nm in exp:
+            a_, b_ = out1[nm].value, exp[nm].value
+            if a_ is None and b_ is None:
+                continue
+            if not np.allclose(np.asarray(a_), np.asarray(b_), rtol=1e-6, atol=1e-6):
+                res.violation("not-direct-assignment", f"node {nm}: update_state gives {np.ravel(np.asarray(a_))[:3].tolist()}, direct "
+                              f"assignment on a twin model gives {np.ravel(np.asarray(b_))[:3].tolist()}", w)
+                break
+        states.append(out1)
+        if len(res.violations) >= 2:
+            break
+    res.nontriv(("numpy", case["idx"]))
+    res.sample = {"kind": "numpy-valued model", "calls": case["n_calls"]}
 
 
 def case_realistic(case, res):
@@ -595,6 +696,8 @@ def run_case(case):
     try:
         if case["kind"] == "edge":
             case_edge(case, res)
+        elif case["kind"] == "numpy":
+            case_numpy(case, res)
         elif case["kind"] == "collision":
             case_collision(case, res)
         elif case["kind"] == "realistic":
@@ -619,9 +722,11 @@ def gen_cases(tier, seed):
         cases.append({"kind": "realistic", "idx": 50000 + i, "seed": seed, "n_calls": 12 if q else 25, "cost": 4})
     for i in range(6 if q else 60):
         cases.append({"kind": "edge", "idx": 80000 + i, "seed": seed, "n_calls": 16, "cost": 2})
+    for i in range(6 if q else 60):
+        cases.append({"kind": "numpy", "idx": 90000 + i, "seed": seed, "n_calls": 12, "cost": 1})
     for i in range(6 if q else 40):
         cases.append({"kind": "collision", "idx": 70000 + i, "seed": seed, "n_calls": 15, "cost": 1})
     for i in range(30 if q else 300):
-        cases.append({"kind": "simple", "iface": ["dict", "dataclass", "namedtuple"][i % 3], "idx": i,
+        cases.append({"kind": "simple", "iface": ["dict", "dataclass", "namedtuple", "dataclass_post"][i % 4], "idx": i,
                       "seed": seed, "n_calls": 25, "cost": 1})
     return cases
